@@ -42,6 +42,8 @@ def sample_counts(k, n, M, seed, companions=0):
             for c in comp[: companions // 2 + 1] if companions else []:
                 c.update({"id": t})
             st.update({"id": t}, "y%d" % t)
+            if _ % 3 == 1:
+                st.get_data(), len(st)       # reading the content between updates changes nothing
             for c in comp[companions // 2 + 1:] if companions else []:
                 c.update({"id": t})
             if companions and t == k + 1:
@@ -158,6 +160,8 @@ def run(tier, seed):
             try:
                 for t in range(1, n + 1):
                     st.update({"id": t})
+                    if _ % 2:
+                        st.get_data()        # a reader after every update (what an explainer's imputer does)
             except Exception as e:
                 raised += 1
                 if raised == 1:
